@@ -145,6 +145,9 @@ func buildPESHeader(class string, sid int, r *rng) *astits.PESHeader {
 	case "ptsdts":
 		h.OptionalHeader = &astits.PESOptionalHeader{MarkerBits: 2, PTSDTSIndicator: astits.PTSDTSIndicatorBothPresent,
 			PTS: &astits.ClockReference{Base: cr33(r)}, DTS: &astits.ClockReference{Base: cr33(r)}, Priority: r.boolean()}
+		if r.intn(4) == 0 { // a decoding time equal to the presentation time is still a decoding time: both are written
+			h.OptionalHeader.DTS = &astits.ClockReference{Base: h.OptionalHeader.PTS.Base}
+		}
 	case "bare":
 		h.OptionalHeader = &astits.PESOptionalHeader{MarkerBits: 2, IsOriginal: r.boolean(), IsCopyrighted: r.boolean()}
 	case "full":
